@@ -511,14 +511,18 @@ namespace BitSerializer::Convert::Detail
 		const int64_t days = eraShifted * 146097ll + rest;
 		const auto time = static_cast<long long>(utc.Hour) * 3600 + static_cast<long long>(utc.Min) * 60 + utc.Sec;
 
+		// For dates before the epoch count the time of day backwards from the next midnight, so that no partial sum
+		// leaves the range between the epoch and the result (otherwise the first calendar day of the target range
+		// and all pre-epoch values of narrow representations were rejected as out of range).
+		const bool countBackwards = days < 0 && (time != 0 || utc.SecFractions);
 		std::chrono::time_point<TClock, TDuration> tp;
-		SafeAddDuration(tp, std::chrono::seconds(time));
+		SafeAddDuration(tp, std::chrono::seconds(countBackwards ? time - 86400 : time));
 		if (utc.SecFractions) {
 			// Only seconds fractions can be rounded to target timepoint type
 			// (rounded in a wide representation: the range is checked by SafeAddDuration, not lost by a cast)
 			SafeAddDuration(tp, std::chrono::round<std::chrono::duration<intmax_t, typename TDuration::period>>(utc.SecFractions.value()));
 		}
-		SafeAddDuration(tp, std::chrono::duration<int64_t, std::ratio<86400>>(days));
+		SafeAddDuration(tp, std::chrono::duration<int64_t, std::ratio<86400>>(countBackwards ? days + 1 : days));
 		out = tp;
 	}
 
